@@ -48,6 +48,13 @@ class IterationHistory(MutableMapping, dict):
     def __getitem__(self, key):
         return dict.__getitem__(self, key)
 
+    def __ior__(self, other):
+        # (dict.__ior__ bypasses __setitem__: unknown keys must be rejected
+        # and values copied as for item assignment)
+        for key, val in dict(other).items():
+            self[key] = val
+        return self
+
     def __iter__(self):
         yield from sorted(dict.__iter__(self))
 
